@@ -159,7 +159,7 @@ func gen(r *verifsim.Rng, tier string) (any, hx.Sched) {
 		in := insts[r.Intn(len(insts))]
 		op := Op{K: "W", Inst: in.Inst, Val: verifsim.Pick(r, values)}
 		if in.Class == "G1" {
-			op.Mem = verifsim.Pick(r, []string{"p", "p", "p", "set", "put", "put", "q", "u", "ctor"}) // q: declared ?T, u: T|null, ctor: new G6<T>(value), a promoted constructor parameter
+			op.Mem = verifsim.Pick(r, []string{"p", "p", "p", "set", "put", "put", "q", "u", "ctor", "pv", "pw", "tpv"}) // q: declared ?T, u: T|null, ctor: new G6<T>(value), a promoted constructor parameter
 		} else if in.Class == "G3" {
 			op.Mem = verifsim.Pick(r, []string{"p", "put"})
 		} else if in.Class == "G5" {
@@ -267,6 +267,11 @@ class G5<T> {
 }
 class G1<T> {
   public T $p;
+  private T $pv;
+  protected T $pw;
+  public function pokePv($other, $v) { $other->pv = $v; return 1; }
+  public function pokePw($other, $v) { $other->pw = $v; return 1; }
+  public function setPv($v) { $this->pv = $v; return 1; }
   public ?T $q = null;
   public T|null $u = null;
   public function set(T $v) { return 1; }
@@ -297,14 +302,14 @@ class G4<A, B, C, D> {
   public C $c;
   public D $d;
 }
-class CCapString { public String $p; public ?String $q = null; public String|null $u = null; public function set(String $v) { return 1; } }
-class CCapInt { public Int $p; public ?Int $q = null; public Int|null $u = null; public function set(Int $v) { return 1; } }
+class CCapString { private String $pv; protected String $pw; public function pokePv($other, $v) { $other->pv = $v; return 1; } public function pokePw($other, $v) { $other->pw = $v; return 1; } public function setPv($v) { $this->pv = $v; return 1; } public String $p; public ?String $q = null; public String|null $u = null; public function set(String $v) { return 1; } }
+class CCapInt { private Int $pv; protected Int $pw; public function pokePv($other, $v) { $other->pv = $v; return 1; } public function pokePw($other, $v) { $other->pw = $v; return 1; } public function setPv($v) { $this->pv = $v; return 1; } public Int $p; public ?Int $q = null; public Int|null $u = null; public function set(Int $v) { return 1; } }
 class C6CapString { public function __construct(public String $x) { } }
 class C6CapInt { public function __construct(public Int $x) { } }
-class Cint { public int $p; public ?int $q = null; public int|null $u = null; public function set(int $v) { return 1; } }
-class Cstring { public string $p; public ?string $q = null; public string|null $u = null; public function set(string $v) { return 1; } }
-class Carray { public array $p; public ?array $q = null; public array|null $u = null; public function set(array $v) { return 1; } }
-class CU { public U $p; public ?U $q = null; public U|null $u = null; public function set(U $v) { return 1; } }
+class Cint { private int $pv; protected int $pw; public function pokePv($other, $v) { $other->pv = $v; return 1; } public function pokePw($other, $v) { $other->pw = $v; return 1; } public function setPv($v) { $this->pv = $v; return 1; } public int $p; public ?int $q = null; public int|null $u = null; public function set(int $v) { return 1; } }
+class Cstring { private string $pv; protected string $pw; public function pokePv($other, $v) { $other->pv = $v; return 1; } public function pokePw($other, $v) { $other->pw = $v; return 1; } public function setPv($v) { $this->pv = $v; return 1; } public string $p; public ?string $q = null; public string|null $u = null; public function set(string $v) { return 1; } }
+class Carray { private array $pv; protected array $pw; public function pokePv($other, $v) { $other->pv = $v; return 1; } public function pokePw($other, $v) { $other->pw = $v; return 1; } public function setPv($v) { $this->pv = $v; return 1; } public array $p; public ?array $q = null; public array|null $u = null; public function set(array $v) { return 1; } }
+class CU { private U $pv; protected U $pw; public function pokePv($other, $v) { $other->pv = $v; return 1; } public function pokePw($other, $v) { $other->pw = $v; return 1; } public function setPv($v) { $this->pv = $v; return 1; } public U $p; public ?U $q = null; public U|null $u = null; public function set(U $v) { return 1; } }
 function wp($o, $v) { try { $o->p = $v; return "A"; } catch (\Throwable $e) { return "R"; } }
 function wq($o, $v) { try { $o->q = $v; return "A"; } catch (\Throwable $e) { return "R"; } }
 function wu($o, $v) { try { $o->u = $v; return "A"; } catch (\Throwable $e) { return "R"; } }
@@ -314,6 +319,9 @@ function wa($o, $v) { try { $o->a = $v; return "A"; } catch (\Throwable $e) { re
 function wb($o, $v) { try { $o->b = $v; return "A"; } catch (\Throwable $e) { return "R"; } }
 function wc($o, $v) { try { $o->c = $v; return "A"; } catch (\Throwable $e) { return "R"; } }
 function wd($o, $v) { try { $o->d = $v; return "A"; } catch (\Throwable $e) { return "R"; } }
+function wpv($o, $v) { try { $o->pokePv($o, $v); return "A"; } catch (\Throwable $e) { return "R"; } }
+function wpw($o, $v) { try { $o->pokePw($o, $v); return "A"; } catch (\Throwable $e) { return "R"; } }
+function wtpv($o, $v) { try { $o->setPv($v); return "A"; } catch (\Throwable $e) { return "R"; } }
 function wset($o, $v) { try { $o->set($v); return "A"; } catch (\Throwable $e) { return "R"; } }
 function wput($o, $v) { try { $o->put($v); return "A"; } catch (\Throwable $e) { return "R"; } }
 function wfill($o, $v) { try { $o->fill(); return "A:" . get_class($o->p); } catch (\Throwable $e) { return "R"; } }
@@ -339,7 +347,7 @@ func renderOp(op Op, idx int) string {
 		// constructs a G6 with the SAME type arguments as the instance, passing the value to a promoted parameter
 		return fmt.Sprintf("__rec(\"w%d\", (function() { try { $x = new G6<%s>(%s); return \"A\"; } catch (\\Throwable $e) { return \"R\"; } })());\n", idx, strings.Join(op.Args, ", "), valueExpr[op.Val])
 	}
-	fn := map[string]string{"p": "wp", "q": "wq", "u": "wu", "kw": "wkw", "kwn": "wkwn", "a": "wa", "b": "wb", "set": "wset", "put": "wput", "c": "wc", "d": "wd", "fill": "wfill", "made": "wmade"}[op.Mem]
+	fn := map[string]string{"p": "wp", "q": "wq", "u": "wu", "kw": "wkw", "kwn": "wkwn", "a": "wa", "b": "wb", "set": "wset", "put": "wput", "c": "wc", "d": "wd", "fill": "wfill", "made": "wmade", "pv": "wpv", "pw": "wpw", "tpv": "wtpv"}[op.Mem]
 	target := fmt.Sprintf("$o%d", op.Inst)
 	pre := ""
 	switch op.Via {
@@ -369,6 +377,9 @@ func concreteScript() string {
 			fmt.Fprintf(&b, "__rec(\"c.set.%s.%s\", wset(new C%s(), %s));\n", t, v, cn(t), valueExpr[v])
 			fmt.Fprintf(&b, "__rec(\"c.q.%s.%s\", wq(new C%s(), %s));\n", t, v, cn(t), valueExpr[v])
 			fmt.Fprintf(&b, "__rec(\"c.u.%s.%s\", wu(new C%s(), %s));\n", t, v, cn(t), valueExpr[v])
+			fmt.Fprintf(&b, "__rec(\"c.pv.%s.%s\", wpv(new C%s(), %s));\n", t, v, cn(t), valueExpr[v])
+			fmt.Fprintf(&b, "__rec(\"c.pw.%s.%s\", wpw(new C%s(), %s));\n", t, v, cn(t), valueExpr[v])
+			fmt.Fprintf(&b, "__rec(\"c.tpv.%s.%s\", wtpv(new C%s(), %s));\n", t, v, cn(t), valueExpr[v])
 			fmt.Fprintf(&b, "__rec(\"c.ctor.%s.%s\", (function() { try { $x = new C6%s(%s); return \"A\"; } catch (\\Throwable $e) { return \"R\"; } })());\n", t, v, cn(t), valueExpr[v])
 		}
 	}
@@ -530,7 +541,7 @@ func exec(t *testing.T, x any, s hx.Sched) *hx.Outcome {
 			}
 			// oracle 2 (own arguments): differential against a non-generic class declared with the concrete type
 			ckey := fmt.Sprintf("c.%s.%s.%s", map[bool]string{true: "set", false: "p"}[op.Mem == "set"], targ, op.Val) // put() stores into p
-			if op.Mem == "q" || op.Mem == "u" || op.Mem == "ctor" {
+			if op.Mem == "q" || op.Mem == "u" || op.Mem == "ctor" || op.Mem == "pv" || op.Mem == "pw" || op.Mem == "tpv" {
 				ckey = fmt.Sprintf("c.%s.%s.%s", op.Mem, targ, op.Val)
 			}
 			if op.Mem == "fill" || op.Mem == "made" || op.Mem == "kw" || op.Mem == "kwn" || cn(targ) != targ {
@@ -539,6 +550,13 @@ func exec(t *testing.T, x any, s hx.Sched) *hx.Outcome {
 				// history oracle is applied to them)
 				ckey = "" // what `new T()` builds has no non-generic counterpart; the solo oracle covers it
 			}
+			// oracle 3 (own arguments, absolute): origami's typed members are strict — a value is accepted iff it is
+			// of the declared type (an object of a subclass included), null iff the member is declared nullable.
+			// Needed next to the differential oracle: a fault in type enforcement as such moves both sides of that one.
+			if want := absolute(in, op); want != "" && sOK != want {
+				o.Violate(fmt.Sprintf("C19/own-argument-not-enforced/%s/%s-gets-%s", mk, targ, op.Val),
+					fmt.Sprintf("alone in a fresh VM, %s is %s, but a member declared with type argument %s must have it %s", desc, ar(sOK), targ, ar(want)))
+			}
 			if want, ok := concrete[ckey]; ok && sOK != want {
 				o.Violate(fmt.Sprintf("C19/own-argument-not-enforced/%s/%s-gets-%s", mk, targ, op.Val),
 					fmt.Sprintf("alone in a fresh VM, %s is %s, but a non-generic class whose member is declared %s has it %s", desc, ar(sOK), targ, ar(want)))
@@ -546,6 +564,70 @@ func exec(t *testing.T, x any, s hx.Sched) *hx.Outcome {
 		}
 	}
 	return o
+}
+
+// isOf: is the generated value kind of the type named t (int, string, array, U)?
+func isOf(t, val string) bool {
+	switch t {
+	case "int":
+		return val == "int" || val == "zero"
+	case "string":
+		return val == "string" || val == "numstr" || val == "emptystr"
+	case "array":
+		return val == "array"
+	case "U":
+		return val == "U" || val == "SubU"
+	case "V":
+		return val == "V"
+	case "SubU":
+		return val == "SubU"
+	}
+	return false
+}
+
+// absolute: "A"/"R" expected for a write from the instance's own type arguments; "" where the model is silent
+// (method parameters are not enforced by origami at all; capitalised scalar names; what `new T()` builds).
+func absolute(in Op, op Op) string {
+	var ts []string
+	nullable := false
+	switch op.Mem {
+	case "p", "put", "pv", "pw", "tpv", "ctor", "a":
+		ts = []string{in.Args[0]}
+	case "q", "u":
+		ts, nullable = []string{in.Args[0]}, true
+	case "b":
+		ts = []string{in.Args[1]}
+	case "c":
+		ts = []string{in.Args[2]}
+	case "d":
+		ts = []string{in.Args[3]}
+	case "kw":
+		ts = []string{in.Args[0], in.Args[1]}
+	case "kwn":
+		ts, nullable = []string{in.Args[0], in.Args[1]}, true
+	default:
+		return ""
+	}
+	for _, t := range ts {
+		if cn(t) != t {
+			return ""
+		}
+	}
+	if op.Val == "null" && op.Mem == "ctor" {
+		return "" // a promoted constructor PARAMETER: origami lets null through every typed parameter, generic or not (C07's subject)
+	}
+	if op.Val == "null" {
+		if nullable {
+			return "A"
+		}
+		return "R"
+	}
+	for _, t := range ts {
+		if isOf(t, op.Val) {
+			return "A"
+		}
+	}
+	return "R"
 }
 
 func memKind(m string) string {
@@ -560,6 +642,10 @@ func memKind(m string) string {
 		return "two-parameter-union-property"
 	case "ctor":
 		return "constructor-parameter"
+	case "pv", "tpv":
+		return "private-property"
+	case "pw":
+		return "protected-property"
 	}
 	return "property"
 }
